@@ -59,6 +59,20 @@ def sh(cmd, cwd=None, timeout=1200, env=None, input=None):
         return 124, out + "\n[timeout after %ss]" % timeout
 
 
+def disk_guard(min_free_gb=25):
+    """the Go build cache grows by gigabytes per scratch worktree / -race build: when the disk runs
+    low, drop it (it is only a cache) and this run's stale scratch directories"""
+    try:
+        st = os.statvfs(VERIF)
+        free = st.f_bavail * st.f_frsize / 2**30
+        if free < min_free_gb:
+            with Lock("diskguard"):
+                sh("go clean -cache", timeout=600, env=go_env())
+                sh("rm -rf %s/*-alt-*" % BUILD)
+    except OSError:
+        pass
+
+
 class Lock:
     def __init__(self, name):
         os.makedirs(BUILD, exist_ok=True)
@@ -161,6 +175,7 @@ class Check:
     # ---------------------------------------------------------------- builds
     def go_build(self, pkg, out=None, tags="verif", race=False, extra=None, timeout=1500):
         """build ./cmd/<pkg> of the harness module against /repo's working tree"""
+        disk_guard()
         out = out or os.path.join(self.bdir, pkg + ("-race" if race else ""))
         with Lock("gosum"):
             try:
